@@ -36,7 +36,12 @@ ListingPages(keys, prefixGiven, prefixKey, size) ==
 (* the required result                                                    *)
 (* k.suf: "end" - the key ends with the suffix; "mid" - the suffix occurs inside the key only;  *)
 (*        "none"                                                                                *)
+(* k.suf: "end" the key ends with the suffix; "mid" the suffix occurs but not at the end; "none"; "upper" the key     *)
+(* ends with the suffix spelled in upper case - another string, so not the suffix                                  *)
 HasSuffix(k) == k.suf = "end"
+(* the listing asked with the upper-case spelling as suffix                                                         *)
+HasSuffixUpper(k) == k.suf = "upper"
+ListingUpper(keys, prefixGiven, prefixKey) == SelectSeq(Served(keys, prefixGiven, prefixKey), HasSuffixUpper)
 Listing(keys, prefixGiven, prefixKey) == SelectSeq(Served(keys, prefixGiven, prefixKey), HasSuffix)
 
 (* sources: all ways of loading one content agree                         *)
